@@ -68,15 +68,21 @@ Lemma pending_reg_ret s o p k ty r s' : reg_ret s o p k ty r = Acc s' -> pending
 Proof. unfold reg_ret. intros H. inv_res H; subst s'; pd; reflexivity. Qed.
 
 Lemma step_pending s e s' o :
-  step s e = Acc s' -> In o (pending s) -> In o (pending s') \/ exists r, e = EvRet o r.
+  step s e = Acc s' -> In o (pending s) -> In o (pending s') \/ (exists r, e = EvRet o r) \/ e = EvAbandon o.
 Proof.
   intros H Hin.
   destruct e; cbn [step] in H; inv_res H; norm_gets; subst.
   all: try solve [ left; pd; auto using in_cons ].
   all: try solve [ left; split_ifs; pd; auto using in_cons ].
-  - destruct (Nat.eq_dec o o0) as [->|N]; [right; eauto|]. left.
+  - destruct (Nat.eq_dec o o0) as [->|N]; [right; left; eauto|]. left.
     rewrite (pending_reg_ret _ _ _ _ _ _ _ H). now apply In_remove1_other.
-  - destruct (Nat.eq_dec o o0) as [->|N]; [right; eauto|]. left. pd. now apply In_remove1_other.
+  - destruct (Nat.eq_dec o o0) as [->|N]; [right; left; eauto|]. left. pd. now apply In_remove1_other.
+  - destruct (Nat.eq_dec o o0) as [->|N]; [right; right; reflexivity|]. left. pd. now apply In_remove1_other.
+Qed.
+
+Lemma abandon_marks_done s o s' : step s (EvAbandon o) = Acc s' -> exists p', ops s' o = Some p' /\ op_done p' = true.
+Proof.
+  cbn [step]. intros H. inv_res H; norm_gets; subst. eexists. cbn. rewrite upd_same. split; reflexivity.
 Qed.
 
 Lemma ret_marks_done s o r s' : step s (EvRet o r) = Acc s' -> exists p', ops s' o = Some p' /\ op_done p' = true.
@@ -116,8 +122,9 @@ Proof.
     assert (p3 = p') by congruence. subst p3.
     assert (Hdp : op_done p = false).
     { destruct (op_done p) eqn:E; auto. rewrite (Sd eq_refl) in Hd. discriminate. }
-    destruct (step_pending _ _ _ o H (I _ _ Ep Hdp)) as [Hin|(r & ->)]; [exact Hin|].
-    exfalso. destruct (ret_marks_done _ _ _ _ H) as (q & Hq & Dq). congruence.
+    destruct (step_pending _ _ _ o H (I _ _ Ep Hdp)) as [Hin|[(r & ->)| ->]]; [exact Hin| |].
+    + exfalso. destruct (ret_marks_done _ _ _ _ H) as (q & Hq & Dq). congruence.
+    + exfalso. destruct (abandon_marks_done _ _ _ H) as (q & Hq & Dq). congruence.
   - eapply new_op_pending; eauto.
 Qed.
 Lemma pend_ok_run tr s s' : pend_ok s -> run s tr = Acc s' -> pend_ok s'.
